@@ -64,6 +64,32 @@ def pos_class(p, marks, hdr_end):
     return "cut_inside_value"
 
 
+BULK_PROTO, BULK_STEP = "SteerBulk", "bulk"
+BULK_ELEM = {"float32": 4, "float64": 8, "complexfloat32": 8, "complexfloat64": 16}
+
+
+def add_bulk_protocol(pkg, rng):
+    """Coverage steering: a protocol whose *last* step is one large vector of fixed-size numbers — the shape for
+    which readers have bulk paths (one read request much larger than the staging buffer), and after which
+    nothing else is read that could notice a short read."""
+    elem = rng.choice(sorted(BULK_ELEM))
+    steps = [(sw.PAD_STEP, M.Prim("string"), False), ("frames", M.Prim("int32"), True), (BULK_STEP, M.Vec(M.Prim(elem)), False)]
+    fn = sorted(pkg.files)[0]
+    pkg.files[fn].append(M.Protocol(BULK_PROTO, steps))
+
+
+def override_bulk(proto, vals, rng, stats):
+    if proto.name != BULK_PROTO:
+        return
+    i = [k for k, s in enumerate(proto.steps) if s[0] == BULK_STEP][0]
+    elem = proto.steps[i][1].inner.name
+    nbytes = rng.choice([70 << 10, 140 << 10, rng.randint(132 << 10, 330 << 10), rng.randint(200 << 10, 330 << 10)])
+    n = nbytes // BULK_ELEM[elem]
+    one = (lambda k: float(k % 1000) + 0.25) if not elem.startswith("complex") else (lambda k: (float(k % 1000) + 0.5, -float(k % 7)))
+    vals[i] = [one(k + 1) for k in range(n)]
+    stats["bulk_final_value_streams"] = stats.get("bulk_final_value_streams", 0) + 1
+
+
 def check_binary(model, proto, rng, quick, stats, viols, seedinfo):
     env, ns = model.env, model.pkg.namespace
     codec = R.Codec(env)
@@ -74,6 +100,7 @@ def check_binary(model, proto, rng, quick, stats, viols, seedinfo):
     if big and proto.steps[0][0] == sw.PAD_STEP:
         pad_len = sw.BUF - hdr_end - 3 - rng.randint(0, 40)
     vals = sw.gen_values(env, ns, proto, rng, big=rng.chance(0.2), pad_len=pad_len, items=(0, 5))
+    override_bulk(proto, vals, rng, stats)
     parts = sw.gen_partitions(proto, vals, rng)
     data = codec.encode_stream(proto, ns, schema, vals, parts)
     marks = set(codec.marks)
@@ -144,6 +171,7 @@ def check_cpp(model, cm, proto, rng, quick, stats, viols, seedinfo):
     if big and proto.steps[0][0] == sw.PAD_STEP:
         pad_len = rng.choice([sw.BUF - hdr_end - 3 - rng.randint(0, 40), sw.BUF - hdr_end - 3, 2 * sw.BUF - hdr_end - 3 - rng.randint(0, 20)])
     vals = sw.gen_values(env, ns, proto, rng, finite=True, pad_len=pad_len, items=(0, 5))
+    override_bulk(proto, vals, rng, stats)
     parts = sw.gen_partitions(proto, vals, rng)
     data = codec.encode_stream(proto, ns, schema, vals, parts)
     marks = set(codec.marks)
@@ -272,6 +300,8 @@ def model_task(task, ybin, root):
     if want_cpp:
         cfg.time_types = False        # delivered values are observed as NDJSON; C++ formats dates through the stubbed date.h
     pkg = sw.stream_package(rng.next(), cfg=cfg, for_cpp=want_cpp)
+    if want_cpp or i % 2 == 1:
+        add_bulk_protocol(pkg, rng.fork("bulk"))
     model = P.PyModel(pkg, ybin, root, want_cpp=want_cpp, cpp_opts=C.CPP_OPTS)
     stats, viols, cases, samples = {"models_with_cpp": 1 if want_cpp else 0}, [], [], []
     try:
@@ -348,13 +378,14 @@ def main():
                rule=("one case = one generated protocol x one reference-encoded stream (binary with seeded block partitions and, for 30%, alignment padding that puts "
                      "the 65536-byte refill inside the values; NDJSON) handed to the generated reader truncated at each enumerated cut position: every position for small "
                      "streams (thorough), else every position within 2 bytes of a value boundary, within 16 bytes of k*65536, the whole fixed header, plus a seeded sample; "
-                     "delivery chunking drawn per cut; non-trivial = at least 2 cut positions executed; distinct = (model, protocol, repetition)"),
+                     "delivery chunking drawn per cut; every C++ model and every second other model also carries a protocol whose last step is one 70-330 KiB vector of "
+                     "fixed-size numbers (bulk read paths; nothing is read after it); non-trivial = at least 2 cut positions executed; distinct = (model, protocol, repetition)"),
                real_code="generated Python package (binary.py, ndjson.py, protocols.py, types.py) + shipped _binary.py/_ndjson.py/yardl_types.py under numpy; for every 6th model (2nd in the thorough tier) the generated C++ binary reader + shipped coded_stream.h/serializers.h through a CopyTo relay in the harness",
                stubbed="C++ nd-array header and date/date.h; streams produced by the independent reference encoder",
                assumptions=["the reference codec follows docs/reference/*.md except int8/uint8 as one raw byte (what every backend does; reported under C01)",
                             "an NDJSON prefix that is itself a complete document of the protocol (cut on a line boundary in a trailing stream) is a by-design finding, listed in known_findings.json"],
                replay_fn=replay_doc, quick_budget=100,
-               fault_keys=("cuts", "ndjson_cuts", "cpp_cuts", "cpp_cut_at_k_times_65536", "cpp_cut_at_k_times_65536_pm1", "cpp_cut_inside_value", "cpp_cut_on_value_boundary", "cut_in_magic", "cut_in_version", "cut_in_schema", "cut_inside_value", "cut_on_value_boundary",
+               fault_keys=("cuts", "ndjson_cuts", "cpp_cuts", "bulk_final_value_streams", "cpp_cut_at_k_times_65536", "cpp_cut_at_k_times_65536_pm1", "cpp_cut_inside_value", "cpp_cut_on_value_boundary", "cut_in_magic", "cut_in_version", "cut_in_schema", "cut_inside_value", "cut_on_value_boundary",
                            "cut_at_k_times_65536", "cut_at_k_times_65536_pm1", "ndjson_cut_on_line_boundary", "ndjson_cut_inside_line", "ndjson_cut_in_header"))
 
 
